@@ -357,223 +357,6 @@ theorem impliedFields_wf (norm : String → String) (ext : Bool) : ∀ (tags : L
         exact ⟨impliedG_wf norm ext T a h.1, impliedFields_wf norm ext tags tys ts h.2⟩
 end
 
-/-! ### struct fields as records (instead of five parallel lists) -/
-
-/-- one struct field together with everything the round trip says about it -/
-structure Fld where
-  tag : String
-  v : GoVal
-  T : GoTy
-  t : Ty
-  w : Value
-
-def findF (k : String) : List Fld → Option Fld
-  | [] => none
-  | f :: fs => if f.tag = k then some f else findF k fs
-
-theorem lookupKey_map {α} (π : Fld → α) (k : String) : ∀ (fs : List Fld),
-    lookupKey k (fs.map (·.tag)) (fs.map π) = (findF k fs).map π
-  | [] => rfl
-  | f :: fs => by
-    simp only [List.map_cons, lookupKey, findF]
-    split
-    · rfl
-    · exact lookupKey_map π k fs
-
-theorem findF_self : ∀ {fs : List Fld} {f : Fld}, (fs.map (·.tag)).Nodup → f ∈ fs → findF f.tag fs = some f
-  | [], _, _, h => by simp at h
-  | a :: fs, f, hn, h => by
-    simp only [List.map_cons, List.nodup_cons] at hn
-    simp only [findF]
-    rcases List.mem_cons.mp h with rfl | h
-    · simp
-    · have : a.tag ≠ f.tag := by
-        intro e
-        exact hn.1 (e ▸ List.mem_map_of_mem h)
-      simp only [this, if_false]
-      exact findF_self hn.2 h
-
-theorem findF_of_mem : ∀ {fs : List Fld} {k : String}, k ∈ fs.map (·.tag) →
-    ∃ f, findF k fs = some f ∧ f.tag = k ∧ f ∈ fs
-  | [], _, h => by simp at h
-  | a :: fs, k, h => by
-    simp only [findF]
-    by_cases e : a.tag = k
-    · exact ⟨a, by simp [e], e, by simp⟩
-    · simp only [e, if_false]
-      simp only [List.map_cons, List.mem_cons] at h
-      rcases h with h | h
-      · exact absurd h.symm e
-      · obtain ⟨f, h1, h2, h3⟩ := findF_of_mem h
-        exact ⟨f, h1, h2, List.mem_cons_of_mem _ h3⟩
-
-theorem lookupKey_names {α} (f : String → α) (k : String) : ∀ (ns : List String), k ∈ ns →
-    lookupKey k ns (ns.map f) = some (f k)
-  | [], h => by simp at h
-  | n :: ns, h => by
-    simp only [List.map_cons, lookupKey]
-    split
-    · rename_i e; rw [e]
-    · rename_i e
-      rcases List.mem_cons.mp h with h | h
-      · exact absurd h.symm e
-      · exact lookupKey_names f k ns h
-
-theorem taggedNames_allTagged : ∀ (tags : List String), allTagged tags = true → taggedNames tags = tags
-  | [], _ => rfl
-  | t :: ts, h => by
-    simp only [allTagged, Bool.and_eq_true, bne_iff_ne, ne_eq] at h
-    simp only [taggedNames, h.1, if_false, taggedNames_allTagged ts h.2]
-
-theorem allTagged_mem : ∀ {tags : List String}, allTagged tags = true → ∀ t ∈ tags, t ≠ ""
-  | [], _, _, h => by simp at h
-  | a :: ts, h, t, ht => by
-    simp only [allTagged, Bool.and_eq_true, bne_iff_ne, ne_eq] at h
-    rcases List.mem_cons.mp ht with rfl | ht
-    · exact h.1
-    · exact allTagged_mem h.2 t ht
-
-theorem nodup_of_tagsDistinct : ∀ {tags : List String}, allTagged tags = true → tagsDistinct tags = true →
-    tags.Nodup
-  | [], _, _ => List.nodup_nil
-  | t :: ts, ha, hd => by
-    simp only [allTagged, Bool.and_eq_true, bne_iff_ne, ne_eq] at ha
-    simp only [tagsDistinct, Bool.and_eq_true, Bool.or_eq_true, beq_iff_eq, Bool.not_eq_true',
-      List.contains_eq_mem, decide_eq_false_iff_not] at hd
-    refine List.nodup_cons.mpr ⟨?_, nodup_of_tagsDistinct ha.2 hd.2⟩
-    rcases hd.1 with h | h
-    · exact absurd h ha.1
-    · exact h
-
-/-! struct → object -/
-
-theorem toCtyF_flds (norm : String → String) (names : List String) (atys : List Ty) : ∀ (sub : List Fld),
-    (∀ f ∈ sub, f.tag ≠ "" ∧ lookupKey f.tag names atys = some f.t ∧ toCtyG norm true f.v f.t = .ok f.w) →
-    toCtyF norm (sub.map (·.tag)) (sub.map (·.v)) names atys = sub.map (fun f => Res.ok f.w)
-  | [], _ => by simp [toCtyF]
-  | f :: sub, h => by
-    have hf := h f (by simp)
-    simp only [List.map_cons, toCtyF, hf.1, if_false, hf.2.1, hf.2.2]
-    rw [toCtyF_flds norm names atys sub (fun g hg => h g (List.mem_cons_of_mem _ hg))]
-
-theorem attrResults_flds (fs : List Fld) (φ : String → Ty) : ∀ (ns : List String),
-    (∀ k ∈ ns, k ∈ fs.map (·.tag)) →
-    attrResults ns (ns.map φ) (fs.map (·.tag)) (fs.map (fun f => Res.ok f.w)) =
-      ns.map (fun k => Res.ok (((findF k fs).map (·.w)).getD default))
-  | [], _ => rfl
-  | k :: ns, h => by
-    obtain ⟨f, h1, _, _⟩ := findF_of_mem (h k (by simp))
-    simp only [List.map_cons, attrResults, lookupKey_map, h1, Option.map_some, Option.getD_some]
-    rw [attrResults_flds fs φ ns (fun k hk => h k (List.mem_cons_of_mem _ hk))]
-
-/-! object → struct -/
-
-theorem missingRequired_none (names : List String) : ∀ (tags : List String) (tys : List GoTy),
-    (∀ t ∈ tags, t ∈ names) → missingRequired names tags tys = false
-  | [], _, _ => by simp [missingRequired]
-  | _ :: _, [], _ => by simp [missingRequired]
-  | t :: tags, T :: tys, h => by
-    have : names.contains t = true := by simpa using h t (by simp)
-    simp only [missingRequired, this, Bool.not_true, Bool.and_false, Bool.false_and, Bool.false_or]
-    exact missingRequired_none names tags tys (fun x hx => h x (List.mem_cons_of_mem _ hx))
-
-theorem fromCtyA_flds (fs : List Fld) (hnd : (fs.map (·.tag)).Nodup)
-    (hne : ∀ f ∈ fs, f.tag ≠ "")
-    (hrt : ∀ f ∈ fs, fromCtyP [] f.w.ty f.w.v f.T = .ok f.v) : ∀ (ns : List String),
-    (∀ k ∈ ns, k ∈ fs.map (·.tag)) →
-    fromCtyA [] ns (tysOf (ns.map fun k => ((findF k fs).map (·.w)).getD default))
-      (payloads (ns.map fun k => ((findF k fs).map (·.w)).getD default))
-      (fs.map (·.tag)) (fs.map (·.T)) =
-      ns.map (fun k => Res.ok (((findF k fs).map (·.v)).getD default))
-  | [], _ => by simp [fromCtyA, tysOf, payloads]
-  | k :: ns, h => by
-    obtain ⟨f, h1, h2, h3⟩ := findF_of_mem (h k (by simp))
-    have hk : k ≠ "" := h2 ▸ hne f h3
-    simp only [List.map_cons, tysOf, payloads, fromCtyA, lookupTag, hk, if_false, lookupKey_map, h1,
-      Option.map_some, Option.getD_some, hrt f h3]
-    rw [fromCtyA_flds fs hnd hne hrt ns (fun k hk => h k (List.mem_cons_of_mem _ hk))]
-
-theorem assemble_flds (names : List String) (gs : List GoVal) : ∀ (sub : List Fld),
-    (∀ f ∈ sub, lookupTag f.tag names gs = some f.v) →
-    assemble names gs (sub.map (·.tag)) (sub.map (·.T)) = sub.map (·.v)
-  | [], _ => by simp [assemble]
-  | f :: sub, h => by
-    simp only [List.map_cons, assemble, h f (by simp)]
-    rw [assemble_flds names gs sub (fun g hg => h g (List.mem_cons_of_mem _ hg))]
-
-theorem tysOf_map {α} (f : α → Value) : ∀ (xs : List α), tysOf (xs.map f) = xs.map (fun x => (f x).ty)
-  | [] => rfl
-  | x :: xs => by simp [tysOf, tysOf_map f xs]
-
-theorem payloads_length : ∀ (ws : List Value), (payloads ws).length = ws.length
-  | [] => rfl
-  | _ :: ws => by simp [payloads, payloads_length ws]
-
-theorem struct_rt (norm : String → String) (fs : List Fld) (hne : fs ≠ [])
-    (hall : allTagged (fs.map (·.tag)) = true) (hdist : tagsDistinct (fs.map (·.tag)) = true)
-    (hto : ∀ f ∈ fs, toCtyG norm true f.v f.t = .ok f.w)
-    (hfrom : ∀ f ∈ fs, fromCtyP [] f.w.ty f.w.v f.T = .ok f.v) :
-    let tags := fs.map (·.tag)
-    let names := sortNames tags
-    let φ : String → Ty := fun k => (lookupKey k tags (fs.map (·.t))).getD .dyn
-    let ov := objectVal names (names.map fun k => ((findF k fs).map (·.w)).getD default)
-    toCtyG norm true (.struct tags (fs.map (·.v))) (.object names (names.map φ) (names.map fun _ => false)) = .ok ov ∧
-    fromCtyP [] ov.ty ov.v (.struct tags (fs.map (·.T))) = .ok (.struct tags (fs.map (·.v))) ∧
-    ((∀ f ∈ fs, f.w.ty = f.t) → ov.ty = .object names (names.map φ) (names.map fun _ => false)) := by
-  intro tags names φ ov
-  have hnd : tags.Nodup := nodup_of_tagsDistinct hall hdist
-  have hne' : ∀ f ∈ fs, f.tag ≠ "" := fun f hf => allTagged_mem hall f.tag (List.mem_map_of_mem hf)
-  have hmem : ∀ k ∈ names, k ∈ tags := fun k hk => mem_sortNames.mp hk
-  have hmem' : ∀ t ∈ tags, t ∈ names := fun k hk => mem_sortNames.mpr hk
-  have hnames : names.isEmpty = false := by
-    cases fs with
-    | nil => exact absurd rfl hne
-    | cons f fs =>
-      have : f.tag ∈ names := hmem' _ (by simp [tags])
-      cases hn : names with
-      | nil => rw [hn] at this; simp at this
-      | cons _ _ => rfl
-  have hφ : ∀ f ∈ fs, φ f.tag = f.t := by
-    intro f hf
-    simp only [φ, tags, lookupKey_map, findF_self hnd hf, Option.map_some, Option.getD_some]
-  have hdist' : tagsDistinct tags = true := hdist
-  refine ⟨?_, ?_, ?_⟩
-  · -- ToCtyValue
-    simp only [toCtyG, hnames, Bool.false_eq_true, if_false, hdist, Bool.not_true]
-    rw [taggedNames_allTagged tags hall]
-    rw [toCtyF_flds norm names (names.map φ) fs (fun f hf => ⟨hne' f hf, by
-      rw [lookupKey_names φ f.tag names (hmem' _ (List.mem_map_of_mem hf)), hφ f hf], hto f hf⟩)]
-    rw [attrResults_flds fs φ names hmem]
-    rw [show (names.map fun k => Res.ok (((findF k fs).map (·.w)).getD default)) =
-      (names.map fun k => ((findF k fs).map (·.w)).getD default).map Res.ok by simp [List.map_map]]
-    rw [combAll_map_ok]
-    simp [hdist', ov]
-  · -- FromCtyValue
-    simp only [ov, objectVal]
-    unfold fromCtyP
-    simp only [GoTy.base, GoTy.isCval, Bool.false_eq_true, if_false, bne_self_eq_false, hdist, Bool.not_true,
-      GoTy.depth, wrapPtr]
-    rw [missingRequired_none names tags _ hmem']
-    simp only [Bool.false_eq_true, if_false]
-    rw [fromCtyA_flds fs hnd hne' hfrom names hmem]
-    rw [show (names.map fun k => Res.ok (((findF k fs).map (·.v)).getD default)) =
-      (names.map fun k => ((findF k fs).map (·.v)).getD default).map Res.ok by simp [List.map_map]]
-    rw [combAll_map_ok]
-    simp only [mapRes]
-    rw [assemble_flds names _ fs (fun f hf => by
-      simp only [lookupTag, hne' f hf, if_false]
-      rw [lookupKey_names _ f.tag names (hmem' _ (List.mem_map_of_mem hf)), findF_self hnd hf]
-      rfl)]
-    simp [hdist']
-  · intro hty
-    simp only [ov, objectVal, tysOf_map]
-    congr 1
-    apply List.map_congr_left
-    intro k hk
-    obtain ⟨f, h1, h2, h3⟩ := findF_of_mem (hmem k hk)
-    subst h2
-    simp only [h1, Option.map_some, Option.getD_some, hty f h3, hφ f h3]
-
 /-! ### inversion of the bridge type -/
 
 theorem impliedG_slice_inv {norm : String → String} {ext : Bool} {e : GoTy} {ty : Ty}
@@ -662,260 +445,6 @@ theorem toCtyG_pass (norm : String → String) (g : GoVal) (T : GoTy) (ty : Ty)
     simp only [impliedG] at hb; cases hb
     simp [toCtyG, passthrough, isDynTy]
   | _ => simp only [toCtyG]
-
-/-! ### the round trip, by induction on the Go value -/
-
-/-- the round trip of one Go value through the bridge type of its Go type -/
-def RT (norm : String → String) (g : GoVal) (T : GoTy) (ty : Ty) : Prop :=
-  ∃ v : Value, toCtyG norm true g ty = .ok v ∧ fromCtyP [] v.ty v.v T = .ok g ∧
-    (hasCval T = false → v.ty = ty)
-
-theorem isEmpty_false_of_ne {α} {l : List α} (h : l ≠ []) : l.isEmpty = false := by
-  cases l <;> simp_all
-
-theorem hasCvalL_false_mem : ∀ {fs : List Fld}, hasCvalL (fs.map (·.T)) = false → ∀ f ∈ fs, hasCval f.T = false
-  | [], _, _, h => by simp at h
-  | a :: fs, hc, f, hf => by
-    simp only [List.map_cons, hasCvalL, Bool.or_eq_false_iff] at hc
-    rcases List.mem_cons.mp hf with rfl | hf
-    · exact hc.1
-    · exact hasCvalL_false_mem hc.2 f hf
-
-mutual
-theorem rt (norm : String → String) : ∀ (g : GoVal) (T : GoTy) (ty : Ty), hasTy g T = true →
-    rtSide norm g T = true → impliedG norm true T = .ok ty → RT norm g T ty
-  | .int v, T, ty, hT, hs, hb => by
-    cases T <;> simp [hasTy] at hT
-    rename_i w s
-    simp only [impliedG] at hb; cases hb
-    refine ⟨⟨.number, .n (Num.ofInt v)⟩, by simp [toCtyG], ?_, fun _ => rfl⟩
-    unfold fromCtyP
-    simp [GoTy.base, GoTy.isCval, GoTy.depth, int_roundtrip v w s 64 hT, mapRes, wrapPtr]
-  | .flt x, T, ty, hT, hs, hb => by
-    cases T <;> simp only [hasTy, Bool.false_eq_true] at hT
-    rename_i is32
-    simp only [impliedG] at hb; cases hb
-    refine ⟨⟨.number, .n (fixPrec x)⟩, by simp [toCtyG], ?_, fun _ => rfl⟩
-    unfold fromCtyP
-    simp [GoTy.base, GoTy.isCval, GoTy.depth, flt_roundtrip x is32 hT, mapRes, wrapPtr]
-  | .nan, T, ty, hT, hs, hb => by cases T <;> simp [hasTy] at hT
-  | .cvalNil, T, ty, hT, hs, hb => by cases T <;> simp [hasTy] at hT
-  | .str s, T, ty, hT, hs, hb => by
-    cases T <;> simp [hasTy] at hT
-    simp only [impliedG] at hb; cases hb
-    simp only [rtSide, beq_iff_eq] at hs
-    refine ⟨⟨.string, .s s⟩, by simp [toCtyG, hs], ?_, fun _ => rfl⟩
-    unfold fromCtyP
-    simp [GoTy.base, GoTy.isCval, GoTy.depth, wrapPtr]
-  | .bool b, T, ty, hT, hs, hb => by
-    cases T <;> simp [hasTy] at hT
-    simp only [impliedG] at hb; cases hb
-    refine ⟨⟨.bool, .b b⟩, by simp [toCtyG], ?_, fun _ => rfl⟩
-    unfold fromCtyP
-    simp [GoTy.base, GoTy.isCval, GoTy.depth, wrapPtr]
-  | .bigInt v, T, ty, hT, hs, hb => by
-    cases T <;> simp [hasTy] at hT
-    simp only [impliedG] at hb; cases hb
-    refine ⟨⟨.number, .n (Num.ofInt v (max 64 (Num.bitlen v.natAbs)))⟩, by simp [toCtyG], ?_, fun _ => rfl⟩
-    unfold fromCtyP
-    simp [GoTy.base, GoTy.isCval, GoTy.depth, bigInt_roundtrip, mapRes, wrapPtr]
-  | .bigFloat x, T, ty, hT, hs, hb => by
-    cases T <;> simp [hasTy] at hT
-    simp only [impliedG] at hb; cases hb
-    refine ⟨⟨.number, .n x⟩, by simp [toCtyG], ?_, fun _ => rfl⟩
-    unfold fromCtyP
-    simp [GoTy.base, GoTy.isCval, GoTy.depth, fromNum, mapRes, wrapPtr]
-  | .cval cv, T, ty, hT, hs, hb => by
-    cases T <;> simp [hasTy] at hT
-    simp only [impliedG] at hb; cases hb
-    refine ⟨cv, by simp [toCtyG, passthrough, isDynTy], ?_, fun h => by simp [hasCval] at h⟩
-    unfold fromCtyP
-    simp [GoTy.base, GoTy.isCval, GoTy.depth, wrapPtr, pushMarks]
-  | .nilSlice, T, ty, hT, hs, hb => by
-    cases T <;> simp [hasTy] at hT
-    rename_i E
-    obtain ⟨ety, hbe, rfl⟩ := impliedG_slice_inv hb
-    refine ⟨Value.null (.list ety), by simp [toCtyG], ?_, fun _ => rfl⟩
-    unfold fromCtyP
-    simp [Value.null, GoTy.base, GoTy.isCval, GoTy.depth, wrapPtr, nullViaPtr]
-  | .nilMap, T, ty, hT, hs, hb => by
-    cases T <;> simp [hasTy] at hT
-    rename_i E
-    obtain ⟨ety, hbe, rfl⟩ := impliedG_map_inv hb
-    refine ⟨Value.null (.map ety), by simp [toCtyG], ?_, fun _ => rfl⟩
-    unfold fromCtyP
-    simp [Value.null, GoTy.base, GoTy.isCval, GoTy.depth, wrapPtr, nullViaPtr]
-  | .slice vs, T, ty, hT, hs, hb => by
-    cases T <;> simp only [hasTy, Bool.false_eq_true] at hT
-    rename_i E
-    obtain ⟨ety, hbe, rfl⟩ := impliedG_slice_inv hb
-    simp only [rtSide, Bool.and_eq_true, Bool.not_eq_true'] at hs
-    obtain ⟨ws, hl, h5, h6, h7⟩ := rtL norm vs E ety hT hs.2 hbe hs.1
-    by_cases hvs : vs = []
-    · subst hvs
-      refine ⟨⟨.list ety, .seq []⟩, by simp [toCtyG], ?_, fun _ => rfl⟩
-      unfold fromCtyP
-      simp [GoTy.base, GoTy.isCval, GoTy.depth, wrapPtr, fromCtyL, seqAll, mapRes]
-    · have hwf := impliedG_wf norm true E ety hbe
-      have heq : Ty.equals ety ety = true := (Ty.equals_iff_eq ety ety hwf hwf).mpr rfl
-      have hnd := impliedG_notDyn norm true E ety hbe hs.1
-      have hwne : ws ≠ [] := by
-        intro e; subst e
-        cases vs with
-        | nil => exact hvs rfl
-        | cons _ _ => simp at hl
-      refine ⟨⟨.list ety, .seq (payloads ws)⟩, ?_, ?_, fun _ => rfl⟩
-      · simp only [toCtyG, isEmpty_false_of_ne hvs, Bool.false_eq_true, if_false, h5, seqAll_map_ok, listVal,
-          isEmpty_false_of_ne hwne, elemTypeOf_dyn ety hnd heq ws hwne h7]
-      · unfold fromCtyP
-        simp [GoTy.base, GoTy.isCval, GoTy.depth, wrapPtr, h6, seqAll_map_ok, mapRes]
-  | .arr vs, T, ty, hT, hs, hb => by
-    cases T <;> simp only [hasTy, Bool.false_eq_true] at hT
-    rename_i n E
-    simp only [Bool.and_eq_true, beq_iff_eq] at hT
-    obtain ⟨ety, hbe, rfl⟩ := impliedG_array_inv hb
-    simp only [rtSide, Bool.and_eq_true, Bool.not_eq_true'] at hs
-    obtain ⟨ws, hl, h5, h6, h7⟩ := rtL norm vs E ety hT.2 hs.2 hbe hs.1
-    have hpl : (payloads ws).length = n := by rw [payloads_length, hl, hT.1]
-    by_cases hvs : vs = []
-    · subst hvs
-      have hn : n = 0 := by simpa using hT.1.symm
-      subst hn
-      refine ⟨⟨.list ety, .seq []⟩, by simp [toCtyG], ?_, fun _ => rfl⟩
-      unfold fromCtyP
-      simp [GoTy.base, GoTy.isCval, GoTy.depth, wrapPtr, fromCtyL, seqAll, mapRes]
-    · have hwf := impliedG_wf norm true E ety hbe
-      have heq : Ty.equals ety ety = true := (Ty.equals_iff_eq ety ety hwf hwf).mpr rfl
-      have hnd := impliedG_notDyn norm true E ety hbe hs.1
-      have hwne : ws ≠ [] := by
-        intro e; subst e
-        cases vs with
-        | nil => exact hvs rfl
-        | cons _ _ => simp at hl
-      refine ⟨⟨.list ety, .seq (payloads ws)⟩, ?_, ?_, fun _ => rfl⟩
-      · simp only [toCtyG, isEmpty_false_of_ne hvs, Bool.false_eq_true, if_false, h5, seqAll_map_ok, listVal,
-          isEmpty_false_of_ne hwne, elemTypeOf_dyn ety hnd heq ws hwne h7]
-      · unfold fromCtyP
-        simp [GoTy.base, GoTy.isCval, GoTy.depth, wrapPtr, h6, seqAll_map_ok, mapRes, hpl]
-  | .map ks vs, T, ty, hT, hs, hb => by
-    cases T <;> simp only [hasTy, Bool.false_eq_true] at hT
-    rename_i E
-    simp only [Bool.and_eq_true, beq_iff_eq] at hT
-    obtain ⟨ety, hbe, rfl⟩ := impliedG_map_inv hb
-    simp only [rtSide, Bool.and_eq_true, Bool.not_eq_true', beq_iff_eq] at hs
-    obtain ⟨ws, hl, h5, h6, h7⟩ := rtL norm vs E ety hT.2 hs.2 hbe hs.1.2
-    by_cases hvs : vs = []
-    · subst hvs
-      have hks : ks = [] := by cases ks <;> simp_all
-      subst hks
-      refine ⟨⟨.map ety, .smap [] []⟩, by simp [toCtyG], ?_, fun _ => rfl⟩
-      unfold fromCtyP
-      simp [GoTy.base, GoTy.isCval, GoTy.depth, wrapPtr, fromCtyL, seqAll, mapRes]
-    · have hwf := impliedG_wf norm true E ety hbe
-      have heq : Ty.equals ety ety = true := (Ty.equals_iff_eq ety ety hwf hwf).mpr rfl
-      have hnd := impliedG_notDyn norm true E ety hbe hs.1.2
-      have hwne : ws ≠ [] := by
-        intro e; subst e
-        cases vs with
-        | nil => exact hvs rfl
-        | cons _ _ => simp at hl
-      refine ⟨⟨.map ety, .smap ks (payloads ws)⟩, ?_, ?_, fun _ => rfl⟩
-      · simp only [toCtyG, isEmpty_false_of_ne hvs, Bool.false_eq_true, if_false, h5, combAll_map_ok, mapVal,
-          isEmpty_false_of_ne hwne, elemTypeOf_dyn ety hnd heq ws hwne h7, hs.1.1, bne_self_eq_false]
-      · unfold fromCtyP
-        simp [GoTy.base, GoTy.isCval, GoTy.depth, wrapPtr, h6, seqAll_map_ok, mapRes]
-  | .nilPtr, T, ty, hT, hs, hb => by
-    cases T <;> simp only [hasTy, Bool.false_eq_true] at hT
-    rename_i E
-    simp only [rtSide] at hs
-    simp only [impliedG] at hb
-    refine ⟨Value.null ty, by simp [toCtyG], ?_, fun _ => rfl⟩
-    have hbase : E.base = E := by cases E <;> simp_all [plainPointee, GoTy.base]
-    have hdepth : E.depth = 0 := by cases E <;> simp_all [plainPointee, GoTy.depth]
-    have hcv : E.isCval = false := by cases E <;> simp_all [plainPointee, GoTy.isCval]
-    have hnv : nullViaPtr ty = true := by
-      cases E <;> simp only [plainPointee, Bool.false_eq_true] at hs
-      all_goals first
-        | (simp only [impliedG] at hb; cases hb; rfl)
-        | (simp only [impliedG] at hb; split at hb <;> cases hb; rfl)
-        | (obtain ⟨ts, _, _, rfl⟩ := impliedG_struct_inv hb; rfl)
-    unfold fromCtyP
-    simp [Value.null, GoTy.base, GoTy.depth, hbase, hdepth, hcv, hnv, wrapPtr]
-  | .ptr v, T, ty, hT, hs, hb => by
-    cases T <;> simp only [hasTy, Bool.false_eq_true] at hT
-    rename_i E
-    simp only [rtSide] at hs
-    simp only [impliedG] at hb
-    obtain ⟨w, h1, h2, h3⟩ := rt norm v E ty hT hs hb
-    refine ⟨w, ?_, fromCtyP_ptr w.v [] w.ty E v h2, fun hc => h3 (by simpa [hasCval] using hc)⟩
-    simp only [toCtyG]
-    rw [toCtyG_pass norm v E ty hT hb]
-    exact h1
-  | .struct tags vs, T, ty, hT, hs, hb => by
-    cases T <;> simp only [hasTy, Bool.false_eq_true] at hT
-    rename_i tags' tys
-    simp only [Bool.and_eq_true, beq_iff_eq] at hT
-    obtain ⟨⟨rfl, hlen⟩, hTZ⟩ := hT
-    simp only [rtSide, Bool.and_eq_true, beq_iff_eq] at hs
-    obtain ⟨⟨⟨hall, hdist⟩, hnorm⟩, hsZ⟩ := hs
-    obtain ⟨ts, hfields, hne, rfl⟩ := impliedG_struct_inv hb
-    rw [taggedNames_allTagged tags hall] at hne ⊢
-    obtain ⟨fs, e1, e2, e3, e4, hfs⟩ := rtZ norm vs tags tys ts hall hlen hTZ hsZ hfields
-    subst e1 e2 e3 e4
-    have hfne : fs ≠ [] := by intro e; subst e; exact hne rfl
-    obtain ⟨s1, s2, s3⟩ := struct_rt norm fs hfne hall hdist (fun f hf => (hfs f hf).1) (fun f hf => (hfs f hf).2.1)
-    refine ⟨_, s1, s2, fun hc => s3 (fun f hf => (hfs f hf).2.2 ?_)⟩
-    simp only [hasCval] at hc
-    exact hasCvalL_false_mem hc f hf
-theorem rtL (norm : String → String) : ∀ (vs : List GoVal) (E : GoTy) (ety : Ty), hasTyL vs E = true →
-    rtSideL norm vs E = true → impliedG norm true E = .ok ety → hasCval E = false →
-    ∃ ws : List Value, ws.length = vs.length ∧ toCtyL norm vs ety = ws.map Res.ok ∧
-      fromCtyL ety (payloads ws) E = vs.map Res.ok ∧ (∀ w ∈ ws, w.ty = ety)
-  | [], _, _, _, _, _, _ => ⟨[], rfl, rfl, rfl, by simp⟩
-  | v :: vs, E, ety, hT, hs, hb, hc => by
-    simp only [hasTyL, rtSideL, Bool.and_eq_true] at hT hs
-    obtain ⟨w, h1, h2, h3⟩ := rt norm v E ety hT.1 hs.1 hb
-    obtain ⟨ws, h4, h5, h6, h7⟩ := rtL norm vs E ety hT.2 hs.2 hb hc
-    have hw := h3 hc
-    refine ⟨w :: ws, by simp [h4], by simp [toCtyL, h1, h5], ?_, ?_⟩
-    · simp only [payloads, fromCtyL, h6, List.map_cons]
-      rw [← hw, h2]
-    · intro x hx
-      rcases List.mem_cons.mp hx with rfl | hx
-      · exact hw
-      · exact h7 x hx
-theorem rtZ (norm : String → String) : ∀ (vs : List GoVal) (tags : List String) (tys : List GoTy) (ts : List Ty),
-    allTagged tags = true → tags.length = vs.length → hasTyZ vs tys = true → rtSideZ norm vs tys = true →
-    impliedFields norm true tags tys = ts.map Res.ok →
-    ∃ fs : List Fld, fs.map (·.tag) = tags ∧ fs.map (·.v) = vs ∧ fs.map (·.T) = tys ∧ fs.map (·.t) = ts ∧
-      ∀ f ∈ fs, toCtyG norm true f.v f.t = .ok f.w ∧ fromCtyP [] f.w.ty f.w.v f.T = .ok f.v ∧
-        (hasCval f.T = false → f.w.ty = f.t)
-  | [], tags, tys, ts, _, hl, hT, _, hf => by
-    have : tags = [] := by cases tags <;> simp_all
-    subst this
-    have : tys = [] := by cases tys <;> simp_all [hasTyZ]
-    subst this
-    have : ts = [] := by cases ts <;> simp_all [impliedFields]
-    subst this
-    exact ⟨[], rfl, rfl, rfl, rfl, by simp⟩
-  | v :: vs, [], _, _, _, hl, _, _, _ => by simp at hl
-  | v :: vs, _ :: _, [], _, _, _, hT, _, _ => by simp [hasTyZ] at hT
-  | v :: vs, t :: tags, T :: tys, ts, ha, hl, hT, hs, hf => by
-    simp only [allTagged, Bool.and_eq_true, bne_iff_ne, ne_eq] at ha
-    simp only [hasTyZ, rtSideZ, Bool.and_eq_true] at hT hs
-    simp only [impliedFields, ha.1, if_false] at hf
-    cases ts with
-    | nil => simp at hf
-    | cons a ts =>
-      simp only [List.map_cons, List.cons.injEq] at hf
-      obtain ⟨w, h1, h2, h3⟩ := rt norm v T a hT.1 hs.1 hf.1
-      obtain ⟨fs, e1, e2, e3, e4, hfs⟩ := rtZ norm vs tags tys ts ha.2 (by simpa using hl) hT.2 hs.2 hf.2
-      refine ⟨⟨t, v, T, a, w⟩ :: fs, by simp [e1], by simp [e2], by simp [e3], by simp [e4], ?_⟩
-      intro f hf'
-      rcases List.mem_cons.mp hf' with rfl | hf'
-      · exact ⟨h1, h2, h3⟩
-      · exact hfs f hf'
-end
 
 /-! ### `ImpliedType` and the bridge type -/
 mutual
